@@ -61,7 +61,7 @@ func init() {
 		}
 		g.writer = true
 		g.acquires++
-		ex.logEvent("lock:"+ptrKey(a[0].(*Ptr)), nil)
+
 		return nil
 	}
 	unlock := func(ex *Exec, fr *frame, a []Value) Value {
@@ -70,7 +70,7 @@ func init() {
 			panic(&goPanic{Val: &Iface{T: types.Typ[types.String], V: ex.mkStr("sync: unlock of unlocked mutex")}, Kind: "fatal:unlock of unlocked mutex", Where: ex.where(fr)})
 		}
 		g.writer = false
-		ex.logEvent("unlock:"+ptrKey(a[0].(*Ptr)), nil)
+
 		return nil
 	}
 	m["(*sync.Mutex).Lock"] = lock
@@ -95,7 +95,7 @@ func init() {
 		}
 		g.readers++
 		g.acquires++
-		ex.logEvent("rlock:"+ptrKey(a[0].(*Ptr)), nil)
+
 		return nil
 	}
 	m["(*sync.RWMutex).RUnlock"] = func(ex *Exec, fr *frame, a []Value) Value {
@@ -104,7 +104,7 @@ func init() {
 			panic(&goPanic{Val: &Iface{T: types.Typ[types.String], V: ex.mkStr("sync: RUnlock of unlocked RWMutex")}, Kind: "fatal:RUnlock of unlocked RWMutex", Where: ex.where(fr)})
 		}
 		g.readers--
-		ex.logEvent("runlock:"+ptrKey(a[0].(*Ptr)), nil)
+
 		return nil
 	}
 	m["(*sync.WaitGroup).Add"] = func(ex *Exec, fr *frame, a []Value) Value {
@@ -332,6 +332,7 @@ func (ex *Exec) timeNow() *StructV {
 	ex.X.AssumeNoCheck(ex.B.Bin(OSle, ex.clock(), t))
 	ex.X.AssumeNoCheck(ex.B.Bin(OSle, t, ex.B.Const(64, 1<<50)))
 	ex.clockFloor = t
+	ex.logEvent("now", t)
 	return &StructV{F: []Value{ex.B.Const(64, 0), t, &Ptr{}}}
 }
 
